@@ -90,14 +90,23 @@ def _range_tabulate(ctx, m) -> bool | None:
                     k += 1
                 label = f"{cls} interval {s0.isoformat(' ')} .. {e0.isoformat(' ')} ({mode}).range({unit!r}, {amt})"
                 n += 1
-                got = minieval.call(meths["range"], [iv, unit, amt], {}, {**funcs, "$globals": glob})
+                import itertools as _it
+                # the generator is consumed as far as the expected values go, and a little further (a range that does not end shows as extra values)
+                got = list(_it.islice(minieval.call(meths["range"], [iv, unit, amt], {}, {**funcs, "$globals": glob}), len(want) + 4))
                 gk = [key(o) for o in got]
                 if gk != want:
                     bad.append(f"{label}: {[x.isoformat(' ') for x in gk][:6]}{'...' if len(gk) > 6 else ''} ({len(gk)} values; expected {[x.isoformat(' ') for x in want][:6]}{'...' if len(want) > 6 else ''}, {len(want)} values)")
                 if unit == "days" and amt == 1 and "__iter__" in meths:
                     n += 1
-                    it = minieval.call(meths["__iter__"], [iv], {}, {**funcs, "$globals": glob})
-                    if [key(o) for o in it] != want:
+                    try:
+                        it = list(_it.islice(minieval.call(meths["__iter__"], [iv], {}, {**funcs, "$globals": glob}), len(want) + 4))
+                    except TypeError as e:
+                        if "unexpected keyword argument" not in str(e):
+                            raise
+                        # add() of the endpoint's class is asked for a unit it does not have (its signature is the class's own)
+                        bad.append(f"{label}: iterating the interval raises TypeError: {str(e).split('.')[-1]}")
+                        it = None
+                    if it is not None and [key(o) for o in it] != want:
                         bad.append(f"{label}: iterating the interval gives {len(it)} values, range('days') {len(want)}")
                 if "__contains__" in meths and mode != "inverted":
                     for probe, inside in ((s0, True), (e0, True), (s0 - _dt.timedelta(days=1), False), (e0 + _dt.timedelta(days=1), False), (s0 + (e0 - s0) / 2, True)):
